@@ -280,7 +280,14 @@ class CContext:
             tid = typ.type_id
         fmt = self.ctypes_names[tid]
         # Check format with arch options:
-        assert self.sizeof(typ) == struct.calcsize(fmt)
+        size = struct.calcsize(fmt)
+        assert self.sizeof(typ) == size
+        if isinstance(value, int) and fmt[-1] in "bBhHiIqQ":
+            # A value which does not fit the type is converted to it
+            # (modulo 2^n), like an assignment at run time does:
+            value &= (1 << (8 * size)) - 1
+            if fmt[-1].islower() and value >> (8 * size - 1):
+                value -= 1 << (8 * size)
         return struct.pack(fmt, value)
 
     def _make_ival(self, typ, ival):
